@@ -360,19 +360,26 @@ theorem c05_flush_is_acknowledged (y : Sys) (s : Store) (i : Nat) (hs : y.store 
 /-- **(2c) A further clean restart is the identity.** From any system with the invariants
 that is clean (worker quiet, nothing pending, nothing to remove — e.g. the recovered system
 itself, `c05_recovered_store_is_consistent`, or any clean state of its continuation): drop +
-open with any configuration returns `ok`, touches no file, and yields the same state, index
+open with any configuration returns `ok`, only syncs the chunk files it keeps (D15: the
+events are `syncEvs y2.fs.linkedIds`, all of the form `sync "o" id true`; the file system is
+`y2.fs.syncAll y2.fs.linkedIds`, which is `y2.fs` when every linked file was durable; old:
+`[]`, `y2.fs`), and yields the same state, index
 map and chunk table; the invariants hold again (`c02_restart_step`). -/
 theorem c05_recovered_restart_is_identity (y2 : Sys) (r' : RefLog) (cfg'' : Cfg)
     (hC : CSys y2 r') (hclean : y2.Clean) :
     ∃ s s', y2.store = some s ∧ ((y2.step .drop).step (.openWith cfg'')).store = some s' ∧
       ({ (y2.step .drop) with cfg := cfg'' } : Sys).open.1 = .ok () ∧
-      ({ (y2.step .drop) with cfg := cfg'' } : Sys).open.2.2 = [] ∧
-      ((y2.step .drop).step (.openWith cfg'')).fs = y2.fs ∧
+      ({ (y2.step .drop) with cfg := cfg'' } : Sys).open.2.2 = syncEvs y2.fs.linkedIds ∧
+      ((y2.step .drop).step (.openWith cfg'')).fs = y2.fs.syncAll y2.fs.linkedIds ∧
       s'.st = s.st ∧ s'.log = s.log ∧ s'.closed = s.closed ∧ s'.openOffsets = s.openOffsets ∧
-      CSys ((y2.step .drop).step (.openWith cfg'')) r' := by
+      CSys ((y2.step .drop).step (.openWith cfg'')) r' ∧
+      (∀ e ∈ ({ (y2.step .drop) with cfg := cfg'' } : Sys).open.2.2, ∃ id, e = Ev.sync "o" id true) ∧
+      ((∀ f ∈ y2.fs, f.linked = true → f.durable = f.data.length) →
+        ((y2.step .drop).step (.openWith cfg'')).fs = y2.fs) := by
   obtain ⟨s, s', k1, k2, k3, k4, _, k6, k7, k8, k9, k10, _, _, _, k14⟩ :=
     c02_restart_step y2 r' cfg'' hC hclean
-  exact ⟨s, s', k1, k2, k3, k4, k6, k7, k8, k9, k10, k14⟩
+  exact ⟨s, s', k1, k2, k3, k4, k6, k7, k8, k9, k10, k14, by rw [k4]; exact syncEvs_isOpenSync _,
+    fun hd => by rw [k6]; exact c02_syncAll_durable hC hd⟩
 
 /-- Any number of further segments (history, then drop + open) that end clean, from the
 recovered system: the invariants hold at the end (`cycles_CSys`). -/
@@ -387,19 +394,21 @@ theorem c05_recovered_cycles (y2 : Sys) (r' r2 : RefLog) (segs : List (List Step
 /-! ### (3) A crash during recovery -/
 
 /-- The file-system effect of one event of `open` (`openEffC5b`), and of a list of events
-(`openEffsC5b`). `Fs.truncate` models `set_len` + `sync_all`: it is durable when it returns,
-so the `sync` event that follows it changes nothing. -/
-theorem c05_open_effect_spec (fs : Fs) (t : String) (id len : Nat) (bs : Bytes) (ok : Bool) :
+(`openEffsC5b`). D15: a successful `sync` makes the file durable up to its length (old:
+`openEffC5b fs (.sync t id ok) = fs`); a failed one changes nothing. -/
+theorem c05_open_effect_spec (fs : Fs) (t : String) (id len : Nat) (bs : Bytes) :
     openEffC5b fs (.trunc t id len) = fs.truncate id len ∧
-    openEffC5b fs (.sync t id ok) = fs ∧
+    openEffC5b fs (.sync t id true) = fs.sync id ∧
+    openEffC5b fs (.sync t id false) = fs ∧
     openEffC5b fs (.unlink t id true) = fs.unlink id ∧
     openEffC5b fs (.create t id true) = fs.create id ∧
     openEffC5b fs (.write t id bs true) = fs.write id bs ∧
     (∀ evs, openEffsC5b evs fs = evs.foldl openEffC5b fs) :=
-  ⟨rfl, rfl, rfl, rfl, rfl, fun _ => rfl⟩
+  ⟨rfl, rfl, rfl, rfl, rfl, rfl, fun _ => rfl⟩
 
 /-- **(3) A crash at any moment of recovery is recoverable.** Hypotheses of (1). `open` on
-the crash image `img` succeeds and performs the file-system events `evs` (truncate + sync
+the crash image `img` succeeds and performs the file-system events `evs` (D15: one sync of
+every chunk file it keeps; truncate + sync
 of a torn tail of the newest chunk; unlink of a newest file without a complete record;
 create + write of the head of a new chunk); replaying `evs` on `img` gives the directory
 `open` returns. For EVERY prefix of these events (`k = 0`: crash before the first effect;
@@ -715,7 +724,8 @@ example :
         (fun s => (s.st, s.log, s.closed, s.openOffsets)) := by
   refine ⟨by decide +kernel, by decide +kernel, by decide +kernel, by decide +kernel⟩
 
-/-- (3) on the example: `open` on the process-crash image performs four events; a crash
+/-- (3) on the example: `open` on the process-crash image performs six events (D15: with the
+syncs of the kept chunks 0 and 84); a crash
 after the truncation, after the creation of chunk 118 (its file still empty), or within
 the write of its head (5 of 34 bytes) is recovered to the same state and index keys. -/
 example :
@@ -723,13 +733,13 @@ example :
       (fun e => match e with
         | .trunc _ id len => (0, id, len) | .sync _ id _ => (1, id, 0) | .create _ id _ => (2, id, 0)
         | .write _ id bs _ => (3, id, bs.length) | _ => (9, 0, 0))
-      = [(0, 84, 34), (1, 84, 0), (2, 118, 0), (3, 118, 34)] ∧
+      = [(1, 0, 0), (0, 84, 34), (1, 84, 0), (1, 84, 0), (2, 118, 0), (3, 118, 34)] ∧
     c03View (openStore {} (procCrash (openEffsC5b
-      ((openStore {} (cutCrash ((Sys.fresh { maxRecords := 3 }).run c05Example).fs [(84, 0), (39, 0)])).2.2.take 1)
+      ((openStore {} (cutCrash ((Sys.fresh { maxRecords := 3 }).run c05Example).fs [(84, 0), (39, 0)])).2.2.take 2)
       (cutCrash ((Sys.fresh { maxRecords := 3 }).run c05Example).fs [(84, 0), (39, 0)])))).1
       = some (⟨none, some ⟨1, 1⟩, none, none, none⟩, [(0, ⟨1, 0⟩), (1, ⟨1, 1⟩)]) ∧
     c03View (openStore {} (procCrash (openEffsC5b
-      ((openStore {} (cutCrash ((Sys.fresh { maxRecords := 3 }).run c05Example).fs [(84, 0), (39, 0)])).2.2.take 3)
+      ((openStore {} (cutCrash ((Sys.fresh { maxRecords := 3 }).run c05Example).fs [(84, 0), (39, 0)])).2.2.take 5)
       (cutCrash ((Sys.fresh { maxRecords := 3 }).run c05Example).fs [(84, 0), (39, 0)])))).1
       = some (⟨none, some ⟨1, 1⟩, none, none, none⟩, [(0, ⟨1, 0⟩), (1, ⟨1, 1⟩)]) ∧
     c03View (openStore {} (cutCrash
